@@ -21,6 +21,11 @@ pub use protocol::{StreamShutdown, VMADDR_CID_HOST, VsockAddr};
 #[cfg(feature = "alloc")]
 pub use vsock::{ConnectionInfo, DisconnectReason, VirtIOSocket, VsockEvent, VsockEventType};
 
+#[cfg(all(virtio_drivers_verif, feature = "alloc"))]
+pub use connectionmanager::VerifRingBuffer;
+#[cfg(all(virtio_drivers_verif, feature = "alloc"))]
+pub use vsock::verif_read_header_and_body;
+
 /// The size in bytes of each buffer used in the RX virtqueue. This must be bigger than
 /// `size_of::<VirtioVsockHdr>()`.
 const DEFAULT_RX_BUFFER_SIZE: usize = 512;
